@@ -34,6 +34,11 @@ CHECKS = {
    text="Reader operations (lookup, batch lookup, history Complete/MostRecent, audit, epoch hash) on the writer, a clone, or a cached/uncached ReadOnlyDirectory run concurrently with 1-2 publishes (optionally with a failing commit, optionally with the poller whose timer is a scheduler choice) under the controlled scheduler, all schedules within the bound; plus warmed readers lagging 0-3 epochs. Every answer must be Err or name a really published (epoch, hash) and verify against it to ground truth as of that epoch."),
  "C17": dict(cat="exploration", sec="§4 C17", tech="exhaustive enumeration of label pairs / (label, length) / label sets against a Vec<bool> bit-string model",
    text="All ordered pairs of all labels of length 0..8 (thorough 0..10), a boundary family around every byte boundary up to 256 bits (also with garbage beyond the length), and all small label sets x every common prefix in sorted-searchable vs unsorted representation are compared with the bit-string model for is_prefix_of, longest common prefix, get_prefix, prefix ordering, Ord/Eq, partition, set common prefix and contains_prefix."),
+
+ "C15": dict(cat="model_checking", sec="§4 C15", tech="explicit-state BFS over StorageManager operation histories with exact state fingerprints (verif_hooks), every state reached by replay on the real objects; read suite vs a map-based reference model and vs a real commit",
+   text="Breadth-first search over histories of set / batch_set / begin / commit / rollback on a real StorageManager (with and without cache) over a small universe of epoch records, tree nodes and well-formed user states (incl. tombstone-shaped rewrites), states deduplicated by an exact fingerprint of database + transaction log + cache. In every state the full read suite (get, batch_get over key subsets, every user-state query for every flag/argument, bulk versions for every user subset) is compared with StoreModel(committed+pending); committable open transactions are committed for real and re-read; op contracts (begin refused while open, rollback, commit batch = pending with epoch record last) are checked on every transition."),
+ "C16": dict(cat="model_checking", sec="§4 C16", tech="explicit-state BFS over cached-StorageManager histories under a virtual clock with exact fingerprints, plus stateless model checking of 2-3 concurrent manager tasks under the controlled scheduler (incl. response-delivery scheduling points)",
+   text="BFS over histories of one cached StorageManager: writes (incl. writes and commit batches the database rejects), transactions, flush, tombstoning, cache-filling reads, virtual clock advances across item lifetimes and clean periods, cleaning on/off, several (lifetime, memory limit, clean frequency) settings, and an external writer for the flush clause; after every transition every get/batch_get/get_direct equals the database (or the pending value). Concurrent part: all schedules (bounded preemptions) of reader vs writer / committing transaction / flush tasks on one manager with request and response delivery as separate scheduling points; at quiescence reads equal the database."),
 }
 
 def main():
